@@ -97,7 +97,40 @@ func runKeepAliveExecution(t *testing.T, seed int64, log *traceLog) {
 			return false
 		}
 		cconn := w.clients["c1"]
-		cconn.Drop = func(p []byte, _ net.Addr) bool { return drop(p, false) }
+		// which datagram is the FIRST transmission of its transaction (seen when it is submitted, lost or not)
+		var smu sync.Mutex
+		seenTx := map[[stun.TransactionIDSize]byte]bool{}
+		firstTx := map[[stun.TransactionIDSize]byte]bool{}
+		cconn.Drop = func(p []byte, _ net.Addr) bool {
+			if stun.IsMessage(p) && len(p) >= 20 {
+				var id [stun.TransactionIDSize]byte
+				copy(id[:], p[8:20])
+				smu.Lock()
+				firstTx[id] = !seenTx[id]
+				seenTx[id] = true
+				smu.Unlock()
+			}
+
+			return drop(p, false)
+		}
+		if seed%4 == 1 {
+			// a socket whose writes sometimes return late (0.8 s, the datagram has left at once): the answer can be
+			// there before the sender starts to wait for it.  (First transmissions only: a retransmission is written
+			// with the client's table lock held, and a goroutine that waits for a mutex stops the virtual clock.)
+			cconn.AfterWrite = func(p []byte, _ net.Addr) {
+				if !stun.IsMessage(p) || len(p) < 20 {
+					return
+				}
+				var id [stun.TransactionIDSize]byte
+				copy(id[:], p[8:20])
+				smu.Lock()
+				slow := firstTx[id] && p[0]&0x01 == 0 && p[1]&0x10 == 0 && rng.Intn(6) == 0 // a request, one time in six
+				smu.Unlock()
+				if slow {
+					time.Sleep(800 * time.Millisecond)
+				}
+			}
+		}
 		w.listen4.Drop = func(p []byte, _ net.Addr) bool { return drop(p, true) }
 		cl, err := turn.NewClient(&turn.ClientConfig{
 			STUNServerAddr: w.listen4.addr.String(), TURNServerAddr: w.listen4.addr.String(), Conn: cconn,
